@@ -13,6 +13,7 @@ import (
 	"runtime"
 	"strings"
 	"testing"
+	"time"
 
 	"github.com/klauspost/compress/zstd"
 	"github.com/mr-tron/base58"
@@ -66,6 +67,7 @@ type c02World struct {
 	eps   []*vEpoch
 	multi *MultiEpoch
 	h     func(*fasthttp.RequestCtx)
+	dead  bool // a request got no answer: the rest of this configuration is skipped
 }
 
 func c02Decode(enc string, v interface{}) ([]byte, error) {
@@ -136,6 +138,10 @@ func (w *c02World) checkTxJSON(tx *cargen.TxTruth, bt int64, enc string, got map
 func (w *c02World) rpc(method string, params string) (map[string]interface{}, string, *c02Finding) {
 	body := fmt.Sprintf(`{"jsonrpc":"2.0","id":1,"method":%q,"params":%s}`, method, params)
 	status, resp, pan := vkRPC(w.h, body)
+	if na, ok := pan.(vkNoAnswer); ok {
+		w.dead = true
+		return nil, "", &c02Finding{"no-answer", fmt.Sprintf("%s %s: %s", method, params, na)}
+	}
 	if pan != nil {
 		return nil, "", &c02Finding{"panic", fmt.Sprintf("%s %s panicked: %v", method, params, pan)}
 	}
@@ -173,6 +179,9 @@ func (w *c02World) checkAll(loaded []*vEpoch, reverse bool, encs []string, repor
 		return nil
 	}
 	for _, br := range blocks {
+		if w.dead {
+			return
+		}
 		t := br.e.Truth
 		b := &t.Blocks[br.i]
 		wantBT := b.Blocktime
@@ -182,6 +191,9 @@ func (w *c02World) checkAll(loaded []*vEpoch, reverse bool, encs []string, repor
 			count(len(b.Txs) > 1)
 			if f != nil {
 				report(*f)
+				if w.dead {
+					return
+				}
 				continue
 			}
 			res, _ := m["result"].(map[string]interface{})
@@ -221,6 +233,9 @@ func (w *c02World) checkAll(loaded []*vEpoch, reverse bool, encs []string, repor
 				if f := w.checkTxJSON(tx, wantBT, enc, got, fmt.Sprintf("getBlock(%d)[%d]", b.Slot, k)); f != nil {
 					f.class = "block-" + f.class
 					report(*f)
+					if w.dead {
+						return
+					}
 				}
 			}
 		}
@@ -230,6 +245,9 @@ func (w *c02World) checkAll(loaded []*vEpoch, reverse bool, encs []string, repor
 			count(false)
 			if f != nil {
 				report(*f)
+				if w.dead {
+					return
+				}
 			} else if bt, ok := m["result"].(float64); !ok || int64(bt) != wantBT {
 				report(c02Finding{"getBlockTime", fmt.Sprintf("getBlockTime(%d) answered %s, archived %d", b.Slot, raw, wantBT)})
 			}
@@ -302,12 +320,18 @@ func (w *c02World) checkAll(loaded []*vEpoch, reverse bool, encs []string, repor
 		}()
 		// ---------- transactions of this block ----------
 		for _, ti := range b.Txs {
+			if w.dead {
+				return
+			}
 			tx := &t.Txs[ti]
 			for _, enc := range encs {
 				m, raw, f := w.rpc("getTransaction", fmt.Sprintf(`[%q,{"encoding":%q,"maxSupportedTransactionVersion":0}]`, tx.Sig.String(), enc))
 				count(true)
 				if f != nil {
 					report(*f)
+					if w.dead {
+						return
+					}
 					continue
 				}
 				res, _ := m["result"].(map[string]interface{})
@@ -323,6 +347,9 @@ func (w *c02World) checkAll(loaded []*vEpoch, reverse bool, encs []string, repor
 				}
 				if f := w.checkTxJSON(tx, wantBT, enc, res, "getTransaction"); f != nil {
 					report(*f)
+					if w.dead {
+						return
+					}
 				}
 			}
 			func() {
@@ -350,8 +377,21 @@ func (w *c02World) checkAll(loaded []*vEpoch, reverse bool, encs []string, repor
 						report(c02Finding{"grpc-meta-bytes", fmt.Sprintf("%s GetTransaction(%s): metadata bytes differ (%d vs archived %d)", via, tx.Sig, len(resp.Transaction.Meta), len(tx.MetaBytes))})
 					}
 				}
-				resp, err := w.multi.GetTransaction(ctx, &old_faithful_grpc.TransactionRequest{Signature: tx.Sig[:]})
-				check(resp, err, "gRPC")
+				type txAnswer struct {
+					resp *old_faithful_grpc.TransactionResponse
+					err  error
+				}
+				ans := make(chan txAnswer, 2)
+				if !vkWatch(func() {
+					resp, err := w.multi.GetTransaction(ctx, &old_faithful_grpc.TransactionRequest{Signature: tx.Sig[:]})
+					ans <- txAnswer{resp, err}
+				}) {
+					w.dead = true
+					report(c02Finding{"no-answer", fmt.Sprintf("gRPC GetTransaction(%s): %s", tx.Sig, vkNoAnswer{vkRequestWatchdog})})
+					return
+				}
+				a := <-ans
+				check(a.resp, a.err, "gRPC")
 				st := &vkGetStream{vkStreamBase: vkBase0(), In: []*old_faithful_grpc.GetRequest{
 					{Id: 9, Request: &old_faithful_grpc.GetRequest_Transaction{Transaction: &old_faithful_grpc.TransactionRequest{Signature: tx.Sig[:]}}}}}
 				if err := w.multi.Get(st); err != nil || len(st.Got) != 1 {
@@ -368,6 +408,7 @@ func TestVerif_C02(t *testing.T) {
 	silenceKlog()
 	R := vkit.New("C02")
 	defer R.Finish()
+	vkRequestWatchdog = 120 * time.Second // a request that never returns is a finding, not a worker timeout
 	base := vkBase("c02")
 	defer os.RemoveAll(base)
 	R.Rule = "configuration = non-empty subset of 3 generated epochs (0 with genesis, 1, 2; skipped slots, multi-entry blocks, linked-frame metadata and rewards, vote/failed/no-metadata transactions, parents in the previous epoch) x epoch-search concurrency x request order (cold / warm shared cache); under each configuration EVERY archived slot and signature is requested through JSON-RPC getBlock/getTransaction/getBlockTime in each encoding and gRPC GetBlock/GetTransaction/GetBlockTime (direct and through the Get stream) and compared with generator-side ground truth; non-trivial = request whose answer contains transaction payloads"
@@ -429,6 +470,9 @@ func TestVerif_C02(t *testing.T) {
 			w.h = newMultiEpochHandler(w.multi, nil)
 			cfgName := fmt.Sprintf("epochs=%03b conc=%d", mask, conc)
 			for pass, reverse := range []bool{false, true} {
+				if w.dead {
+					break
+				}
 				w.checkAll(loaded, reverse, encs, func(f c02Finding) {
 					R.Violation("C02|"+f.class, fmt.Sprintf("[%s pass=%d] %s", cfgName, pass, f.detail), map[string]interface{}{"mask": mask, "conc": conc, "pass": pass})
 				}, func(nt bool) { R.Case(nt, "") })
